@@ -3,7 +3,7 @@
    script lists regenerated from ctrl/qryn/sql/*.sql). *)
 From Coq Require Import List String NArith ZArith Bool Arith.
 From Qryn Require Import model.Migrate model.MigrateRepair proofs.MigrateProofs proofs.MigrateClusterProofs proofs.MigrateConcProofs
-  proofs.MigrateClassProofs proofs.MigrateSoloProofs proofs.MigrateRepairProofs proofs.MigrateBootProofs gen.GenScripts proofs.MigrateConcrete.
+  proofs.MigrateClassProofs proofs.MigrateClassExact proofs.MigrateSoloProofs proofs.MigrateRepairProofs proofs.MigrateBootProofs gen.GenScripts proofs.MigrateConcrete.
 Import ListNotations.
 Open Scope nat_scope.
 
@@ -182,6 +182,14 @@ Theorem guarded_statements_reexecutable : forall (cloud : bool) (s : stmt) (c c1
 Proof. exact guarded_reexec. Qed.
 Print Assumptions guarded_statements_reexecutable.
 
+(* The classification is exact: wherever a statement is accepted (duplicate-free catalogue), it is re-executable right
+   after itself if and only if it is of a guarded class -- a statement outside the classes is rejected when sent once
+   more.  So a statement that fails the syntactic test is a genuine obstacle to re-running, never a false alarm. *)
+Theorem guarded_classification_exact : forall (cloud : bool) (s : stmt) (c c1 : cat),
+  wf c -> exec_ch cloud s c = Some c1 -> (guarded s = true <-> exec_ch cloud s c1 = Some c1).
+Proof. exact guarded_exact. Qed.
+Print Assumptions guarded_classification_exact.
+
 (* Hence convergence for ANY script lists and ON CLUSTER flags (a future script is covered by the translator's
    classification alone): if every statement is of a guarded class and the uninterrupted run is accepted (on the
    connected host, and the ON CLUSTER statements on any other host), then on 1 + n hosts, after any failures,
@@ -236,8 +244,10 @@ Print Assumptions reread_script_after_own_read.
    other starter can pass script i between that read and the statement.  With the repository's scripts: q alone up
    to its re-read before script 3, then p runs the whole initialisation, then q sends DROP TABLE IF EXISTS
    samples_read -- both return nil, every later start is a no-op, samples_read is missing for good. *)
-Theorem reread_repair_insufficient : reread_closes_stale_start = true /\ reread_witness = true.
-Proof. exact reread_repair_examined. Qed.
+Theorem reread_repair_insufficient : reread_closes_stale_start = true /\ reread_witness = true /\
+  (* the statements that change the finished single-node schema when sent once more: log.sql #3, #18, #21, profiles.sql #11 *)
+  stale_harmful cfg_single = [(1%N, 3); (1%N, 18); (1%N, 21); (5%N, 11)].
+Proof. exact (conj (proj1 reread_repair_examined) (conj (proj2 reread_repair_examined) stale_harmful_single)). Qed.
 Print Assumptions reread_repair_insufficient.
 
 (* ---- the real entry point: ctrl.Init = InitDB (CREATE DATABASE IF NOT EXISTS, error dropped; SHOW CREATE DATABASE,
